@@ -1062,6 +1062,22 @@ func (s *State) load(addr *Expr, typ types.Type) *Expr {
 	if v, ok := s.mem[addr.Key]; ok {
 		return v
 	}
+	// element of a constant package-level table at a known index
+	if s.an != nil && addr.Op == "ia" && len(addr.Args) == 2 {
+		base := addr.Args[0]
+		if base.Op == "arr" && len(base.Args) > 0 {
+			base = base.Args[0]
+		}
+		if base.Op == "global" {
+			if tab, ok := s.an.P.constGlobals()[strings.TrimSuffix(base.S, "#")]; ok {
+				if i, isC := s.rangeOf(addr.Args[1]).IsConst(); isC {
+					if v, has := tab[i]; has {
+						return mkConst(v, typ)
+					}
+				}
+			}
+		}
+	}
 	if addr.Op == "fa" {
 		if whole, ok := s.mem[addr.Args[0].Key]; ok {
 			return mkField(whole, addr.S, 0, typ)
